@@ -103,6 +103,8 @@ let c10_oracles (ops : string list) (impl : res list list list) : (string * bool
   (* what the client itself announced on the wire (its packets read with the specification decoder): 0 = idle, 1 = play requested or
      running, 2 = publish requested or running; stopping must emit a deleteStream exactly from the matching activity *)
   let peer = new_peer () and activity = ref 0 and stop_ok = ref true in
+  (* every connect request is answered at most once: accepted or rejected events never outnumber the requests that emitted a packet *)
+  let connects = ref 0 and answers = ref 0 and answered_ok = ref true in
   let command_names (all : res list) : string list =
     List.concat_map (function
       | Pkt (_, b) ->
@@ -125,7 +127,7 @@ let c10_oracles (ops : string list) (impl : res list list list) : (string * bool
      | _ -> ());
     List.iter (fun n -> if n = "play" then activity := 1 else if n = "publish" then activity := 2 else if n = "deleteStream" then activity := 0) names;
     (match t with
-     | "connect" :: _ -> if !connected && has_packet then connect_ok := false
+     | "connect" :: _ -> if has_packet then incr connects; if !connected && has_packet then connect_ok := false
      | "play" :: _ -> if has_packet then play_active := true
      | "stopplay" :: _ -> play_active := false
      | "publish" :: _ -> if has_packet then pub_requested := true
@@ -133,14 +135,16 @@ let c10_oracles (ops : string list) (impl : res list list list) : (string * bool
      | ("video" | "audio" | "meta") :: _ -> if has_packet && not !publishing then pubmedia_ok := false
      | _ -> ());
     List.iter (function
-      | Other "E:ConnAccepted" -> connected := true; activity := 0
+      | Other "E:ConnAccepted" -> connected := true; activity := 0; incr answers; if !answers > !connects then answered_ok := false
+      | Other s when starts_with "E:ConnRejected" s -> incr answers; if !answers > !connects then answered_ok := false
       | Other "E:PubAccepted" -> if !pub_requested then publishing := true
       | Other s when starts_with "E:Video:" s || starts_with "E:Audio:" s -> if not !play_active then media_ok := false
       | Other s when starts_with "E:Meta:" s -> if not (!play_active || !pub_requested) then media_ok := false   (* needs an active stream *)
       | _ -> ()) all) ops impl
   with Invalid_argument _ -> ());
   [ "C10.connect_only_when_disconnected", !connect_ok; "C10.media_events_only_while_play_requested_or_running", !media_ok;
-    "C10.publish_media_only_while_publishing", !pubmedia_ok; "C10.stop_emits_delete_stream_exactly_from_matching_activity", !stop_ok ]
+    "C10.publish_media_only_while_publishing", !pubmedia_ok; "C10.stop_emits_delete_stream_exactly_from_matching_activity", !stop_ok;
+    "C10.each_connect_request_answered_at_most_once", !answered_ok ]
 
 let oracle (toks : string list) (obs : string) : (string * bool) list =
   let pk = J_server.impl_packets obs in
